@@ -1197,12 +1197,20 @@ def robustness(ctx, kinds):
                  ('demo', '/demo/static//' + decoy_tile.lstrip('/'), ''),
                  ('demo', '/demo/static/' + decoy_tile, ''),
                  ('demo', '/demo/static/..%2f..%2f' + decoy_tile, '')]
+        # the demo service fetches capabilities documents from a URL it builds from request headers (type=external):
+        # scheme and host are the client's
+        for view in ('wms_capabilities', 'wmsc_capabilities', 'wmts_capabilities', 'wmts_capabilities_kvp', 'tms_capabilities'):
+            for proto, host in (('file', decoy_tile + '#http://x'), ('file', decoy_tile + '?http://x/'), ('FILE', decoy_tile + '#https://x'),
+                                ('file', ''), ('file', 'localhost' + decoy_tile + '#http://x'), ('ftp', decoy_tile + '#http://x')):
+                extra.append(('demo', '/demo/', view + '&type=external', {'X-Forwarded-Proto': proto, 'X-Forwarded-Host': host}))
         try:
-            for i, (flow, pi, qs) in enumerate(cases + extra):
+            for i, case in enumerate(cases + extra):
+                flow, pi, qs = case[:3]
                 if not kind.dims:
                     pi = pi.replace('/g/v1/', '/g/')
                 try:
-                    o = observe_raw(world, pi, qs, flow=flow, extra_headers=headers[i % 2] if i % 5 == 0 else None)
+                    o = observe_raw(world, pi, qs, flow=flow,
+                                    extra_headers=case[3] if len(case) > 3 else headers[i % 2] if i % 5 == 0 else None)
                 except Exception as ex:          # the test client refuses what no server would pass on
                     ctx.notes.append('robustness case not sendable: %r' % (ex,)) if len(ctx.notes) < 3 else None
                     continue
